@@ -49,4 +49,32 @@ def framedOK (declared : Option Nat) (bodyBytes : Nat) : Bool :=
   | none => true
   | some n => n == bodyBytes
 
+/-! ### The predicates the judges gate on (each has an acceptance lemma in `Props/C03.lean`: the model's own run satisfies it) -/
+
+/-- Request side (`unit` prep, `e2e`, every attempt of a retry, the mirror): what the backend saw — method, request
+URL / target, Host, header — against the client's request *after the configured adaption* (`expMethod`, `expURL`,
+`expHdr`; without a RequestAdaptor they are the client's own). -/
+def reqSideOK (canon : String → String) (expMethod expURL : String) (expHdr : Hdr) (skip : List String)
+    (serverIsIP keepHost : Bool) (clientHost serverHostPort : String)
+    (method url host : String) (hdr : Hdr) : Bool :=
+  method == expMethod && url == expURL && (headerViolation canon expHdr hdr skip).isNone &&
+    host == expectedHost serverIsIP keepHost clientHost serverHostPort
+
+/-- Framing on the header as written: no Content-Length, or exactly the number of body bytes. -/
+def framedOKL (declared : List String) (bodyBytes : Nat) : Bool :=
+  declared.isEmpty || declared == [toString bodyBytes]
+
+/-- Response side (`e2e`, the misses of `hist`): status, the backend's end-to-end headers (after a configured
+ResponseAdaptor header section: `expHdr`), framing. -/
+def clientSeenOK (expStatus : Nat) (expHdr : Hdr) (status : Nat) (hdr : Hdr) (bodyBytes : Nat) : Bool :=
+  status == expStatus && (respHeaderViolation expHdr hdr).isNone && framedOKL (hdr.get keyCL) bodyBytes
+
+/-- `hist`: a response served from the cache against the response of the miss that created the entry. -/
+def hitSameAsMiss (keys : List String) (st1 : Nat) (h1 : Hdr) (st2 : Nat) (h2 : Hdr) : Bool :=
+  st1 == st2 && keys.all fun k => h1.get k == h2.get k
+
+/-- `conc`: one of several overlapping compressed responses is the response its own request gets alone. -/
+def isolationOK (expStatus status : Nat) (ce : List String) (decodesToOwnBody : Bool) : Bool :=
+  status == expStatus && ce == ["gzip"] && decodesToOwnBody
+
 end EgVerif.Proxy.Spec
